@@ -52,7 +52,7 @@ Units(style) ==
    \* line ends inside a literal are characters of the value like any other (LF, and the two-character CR LF)
    <<"newline", <<10>>, <<10>>>>, <<"crlf", <<13, 10>>, <<13, 10>>>>,
    \* a long run of plain characters: nothing in a scanner may depend on how long a literal is
-   <<"long", [i \in 1..300 |-> 97], [i \in 1..300 |-> 97]>>}
+   <<"long", [i \in 1..70 |-> 97], [i \in 1..70 |-> 97]>>}
   \cup (IF HasDbl(style) THEN {<<"doubled", <<q, q>>, <<q>>>>} ELSE {})
   \cup (IF HasBS(style) THEN {<<"bs-quote", <<BS, q>>, <<q>>>>, <<"bs-otherquote", <<BS, o>>, <<o>>>>,
                               <<"bs-bs", <<BS, BS>>, <<BS>>>>}
@@ -104,7 +104,7 @@ PartClasses ==
    <<"quote", <<97, 39, 98>>, FALSE>>, <<"dash", <<97, 45, 98>>, FALSE>>,
    <<"digits-only", <<48, 48, 55>>, FALSE>>, <<"one-digit", <<53>>, FALSE>>,
    \* long names (past the 63 / 64 / 128 character limits of the usual engines): a name is not cut at any length
-   <<"long65", [i \in 1..65 |-> 97 + (i % 3)], TRUE>>, <<"long300", [i \in 1..300 |-> 97 + (i % 5)], TRUE>>}
+   <<"long70", [i \in 1..70 |-> 97 + (i % 3)], TRUE>>}
 
 \* written form of a part: bare or back-quoted
 Written(p, quoted) == IF quoted THEN <<BQ>> \o p[2] \o <<BQ>> ELSE p[2]
